@@ -84,7 +84,7 @@ fn gen_enumeration(seed: u64, k: u64) -> Plan {
     let (proto, region, bit) = nth_bit_forgery(k);
     plan.params.insert("enum_k".into(), k as i64);
     let port = 4000 + rng.below(1000) as u16;
-    let slot = SlotSpec { index: rng.below(4) as u32, depth: 2, midp_secs: pick_midp_secs(&mut rng), midp_sub_us: rng.below(1_000_000) as u32, forgeries: vec![Forgery::FlipBit { region: region.to_string(), bit }], sibling_seed: rng.next_u64(), delay_us: 0, window: (rng.below(5)) as u8 };
+    let slot = SlotSpec { index: rng.below(4) as u32, depth: 2, midp_secs: pick_midp_secs(&mut rng), midp_sub_us: rng.below(1_000_000) as u32, forgeries: vec![Forgery::FlipBit { region: region.to_string(), bit }], sibling_seed: rng.next_u64(), delay_us: 0, window: (rng.below(5)) as u8, no_nonc: rng.chance(1, 4) };
     let spec = RefServerSpec { port, long_seed: rng.next_u64(), online_seed: rng.next_u64(), slots: vec![slot] };
     let pk = {
         let mut s = [0u8; 32];
@@ -123,7 +123,7 @@ fn gen(seed: u64, idx: u64, _tier: Tier) -> Plan {
                 forgeries.push(f);
             }
         }
-        slots.push(SlotSpec { index: rng.below(64) as u32, depth, midp_secs: pick_midp_secs(&mut rng), midp_sub_us: rng.below(1_000_000) as u32, forgeries, sibling_seed: rng.next_u64(), delay_us: rng.below(500), window: *rng.pick(&[0u8, 0, 0, 1, 2, 3, 4]) });
+        slots.push(SlotSpec { index: rng.below(64) as u32, depth, midp_secs: pick_midp_secs(&mut rng), midp_sub_us: rng.below(1_000_000) as u32, forgeries, sibling_seed: rng.next_u64(), delay_us: rng.below(500), window: *rng.pick(&[0u8, 0, 0, 1, 2, 3, 4]), no_nonc: rng.chance(1, 4) });
     }
     let spec = RefServerSpec { port, long_seed: rng.next_u64(), online_seed: rng.next_u64(), slots };
     let pk = {
